@@ -56,6 +56,31 @@ def window_of(p):
     return S, E
 
 
+def window_edges_exact_in_float(p):
+    """Whether the window edges, evaluated with ordinary float arithmetic from the parameters, equal their exact
+    rational values. Only then can an implementation be held to the inclusive rule *at* the edge; otherwise a step
+    that coincides with the exact edge is within rounding of it and either answer is accepted."""
+    per = p.get("period")
+
+    def onef(abs_key, per_key):
+        a, b = p.get(abs_key), p.get(per_key)
+        if a is not None:
+            return float(a)
+        if b is not None:
+            return float(b) * float(per)
+        return None
+
+    Sf, Ef, Df = onef("start_time", "start_after_periods"), onef("end_time", "end_after_periods"), onef("on_for_time", "on_for_periods")
+    if Sf is None and Ef is not None and Df is not None:
+        Sf = Ef - Df
+    if Sf is None:
+        Sf = 0.0
+    if Ef is None:
+        Ef = Sf + Df if Df is not None else math.inf
+    S, E = window_of(p)
+    return Fraction(Sf) == S, (E is math.inf and Ef == math.inf) or (E is not math.inf and Ef != math.inf and Fraction(Ef) == E)
+
+
 def switch_oracle(p, T, dt, ulps=4):
     """Returns (on, amb): per step True/False and whether the step is within a few ulp of a window edge.
 
@@ -71,13 +96,14 @@ def switch_oracle(p, T, dt, ulps=4):
             on[k] = True
         return on, [False] * T
     S, E = window_of(p)
+    s_exact, e_exact = window_edges_exact_in_float(p)
     iv = int(p.get("interval", 1))
     fdt = Fraction(dt)
     on, amb = [], []
     for t in range(T):
         x = t * fdt
         tol = ulps * max(abs(float(x)), abs(float(S)), 0.0 if E is math.inf else abs(float(E))) * 2.0**-52
-        near = (abs(float(x - S)) <= tol and x != S) or (E is not math.inf and abs(float(x - E)) <= tol and x != E)
+        near = (abs(float(x - S)) <= tol and (x != S or not s_exact)) or (E is not math.inf and abs(float(x - E)) <= tol and (x != E or not e_exact))
         inside = S <= x and (E is math.inf or x <= E)
         grid = t % iv == 0
         on.append(bool(inside and grid))
